@@ -482,6 +482,12 @@ def canon_key(v):
 
 def evaluate(prop, cases):
     """Run model + implementation; classify."""
+    if getattr(prop, "two_phase", False):
+        # the model replays what the implementation did (trace acceptance): implementation first
+        ires = run_impl(prop, cases)
+        pairs = [prop.to_model2(c, i) for c, i in zip(cases, ires)]
+        mraw = run_model(pairs)
+        return pairs, mraw, ires
     pairs = [prop.to_model(c) for c in cases]
     mraw = run_model(pairs)
     ires = run_impl(prop, cases)
@@ -497,9 +503,11 @@ def _is_fail(i):
 
 def classify(prop, case, m, i):
     """'ok' | 'violation' | 'corr' (correspondence broken, property still accepted)"""
-    if m == i:
-        return "ok"
     if isinstance(i, dict) and "skipped" in i:
+        return "ok"
+    if hasattr(prop, "judge"):
+        return prop.judge(case, m, i)
+    if m == i:
         return "ok"
     if prop.in_domain(case) and not prop.accept(case, i, m):
         return "violation"
@@ -737,7 +745,7 @@ def run_check(prop, tier, seed, scratch, t0, n_override=None):
                             distinct_nontrivial=n_nontrivial,
                             rule=prop.rule,
                             samples=samples[:3],
-                            traces_validated_against_impl=sum(1 for m, i in zip(mres, ires) if m == i and not isinstance(i, dict)),
+                            traces_validated_against_impl=sum(1 for c, m, i in zip(cases, mres, ires) if classify(prop, c, m, i) == "ok" and not (isinstance(i, dict) and "skipped" in i)),
                             skipped_after_hang_limit=sum(1 for i in ires if isinstance(i, dict) and "skipped" in i),
                             disagreements=len(corr_broken) + len(concrete),
                             extraction_cross_checked_in_coq=xs,
